@@ -29,9 +29,9 @@ def run(ctx):
         ctx.design("Session/Cookie.tla", "Cookie_quick.cfg" if q else "Cookie.cfg", workers=8, timeout=1500, heap="8g")
         ctx.design("Session/CookieCodec.tla", "CookieCodec_quick.cfg" if q else "CookieCodec.cfg", workers=2, timeout=600, heap="4g",
                    note="ASSUMEs: DecEq == equality of Decode, Decode o Encode = id, on all short texts")
-        ctx.design("Session/Cookie.tla", "Cookie_mutMac.cfg", workers=4, timeout=300, expect_violation="Auth", count=False,
+        ctx.design("Session/Cookie.tla", "Cookie_mutMac.cfg", workers=4, timeout=300, expect_violation="Auth", count=False, extra=["-noGenerateSpecTE"],
                    note="self-test: MAC not covering the IV block must violate Auth")
-        ctx.design("Session/Cookie.tla", "Cookie_mutIv.cfg", workers=4, timeout=300, expect_violation="IvFresh", count=False,
+        ctx.design("Session/Cookie.tla", "Cookie_mutIv.cfg", workers=4, timeout=300, expect_violation="IvFresh", count=False, extra=["-noGenerateSpecTE"],
                    note="self-test: constant IV must violate IvFresh")
     td = threading.Thread(target=leg_d)
     td.start()
